@@ -149,16 +149,20 @@ def to_auth_json(c: dict) -> dict:
          "signature": b64url(c["signature"])}
     if c.get("user_handle") is not None:
         r["userHandle"] = b64url(c["user_handle"])
-    return {"id": c["id"], "rawId": b64url(c["raw_id"]), "response": r, "type": c["type"],
-            "clientExtensionResults": {}}
+    out = {"id": c["id"], "rawId": b64url(c["raw_id"]), "response": r, "type": c["type"], "clientExtensionResults": {}}
+    if c.get("attachment") is not None:
+        out["authenticatorAttachment"] = c["attachment"]
+    return out
 
 
 def to_reg_json(c: dict) -> dict:
     r = {"clientDataJSON": b64url(c["client_data_json"]), "attestationObject": b64url(c["attestation_object"])}
     if c.get("transports") is not None:
         r["transports"] = c["transports"]
-    return {"id": c["id"], "rawId": b64url(c["raw_id"]), "response": r, "type": c["type"],
-            "clientExtensionResults": {}}
+    out = {"id": c["id"], "rawId": b64url(c["raw_id"]), "response": r, "type": c["type"], "clientExtensionResults": {}}
+    if c.get("attachment") is not None:
+        out["authenticatorAttachment"] = c["attachment"]
+    return out
 
 
 def make_credential(kind="p256", idx=0, alg=None, cred_id=None, aaguid=None, rng=None) -> SimCredential:
